@@ -436,7 +436,7 @@ pub fn spec_conflict(store: &Store, spec: &Spec, name: &str) -> Option<bool> {
     for (req, sets) in &viols {
         let hit = |crit: u64| sets.iter().any(|v| crit & v == *v);
         for e in store.config.exemptions.get(name).map(|v| &v[..]).unwrap_or(&[]) {
-            if hit(spec.cl(&e.criteria)?) && req.matches(&e.version) {
+            if hit(spec.cl(&e.criteria)?) && req.0.matches(&e.version.semver) {
                 return Some(true);
             }
         }
@@ -444,8 +444,8 @@ pub fn spec_conflict(store: &Store, spec: &Spec, name: &str) -> Option<bool> {
             for a in f.audits.get(name).map(|v| &v[..]).unwrap_or(&[]) {
                 let crit = spec.cl(&a.criteria)?;
                 let touches = match &a.kind {
-                    AuditKind::Full { version } => req.matches(version),
-                    AuditKind::Delta { from, to } => req.matches(from) || req.matches(to),
+                    AuditKind::Full { version } => req.0.matches(&version.semver),
+                    AuditKind::Delta { from, to } => req.0.matches(&from.semver) || req.0.matches(&to.semver),
                     AuditKind::Violation { .. } => false,
                 };
                 if touches && hit(crit) {
@@ -658,7 +658,7 @@ pub fn check_world(r: &mut Report, d: &mut Driver, w: &gen::GWorld, tag: &str) {
         for f in &files {
             for a in f.audits.get(p.name).map(|v| &v[..]).unwrap_or(&[]) {
                 if let AuditKind::Violation { violation } = &a.kind {
-                    if !violation.matches(&p.version) {
+                    if !violation.0.matches(&p.version.semver) {
                         continue;
                     }
                     for vc in &a.criteria {
